@@ -10,7 +10,8 @@ RULE = ("ledger: Hypothesis-generated broker histories (1-4 contracts: user-defi
         "mark-to-market / valuation / rebalance(weights or nr-contracts)); one case in six is dyadic (exact arithmetic). After EVERY op the "
         "broker NLV is compared with the independent ledger deposit + interest - fees + sum M(q*liq - sum dq*acq). "
         "twin: same history (rate 0) run with every spot-like contract swapped for a margined one of the same multiplier and vice versa; "
-        "NLV paths must agree. Non-trivial = an add to an existing position under bid<ask, or a flip, or a trade in a fully-paid "
+        "NLV paths must agree. sparse: same histories, but the broker is valued only at the history's own NLV queries and once at the "
+        "end (so a quote move followed directly by a trade is not preceded by a valuation). Non-trivial = an add to an existing position under bid<ask, or a flip, or a trade in a fully-paid "
         "contract with multiplier != 1.")
 ASSUMPTIONS = [
     "money identity tolerance abs <= 1e-9 * (deposit + sum|traded notional| + sum|open notional| + |interest|)",
@@ -72,7 +73,18 @@ def run_twin(case):
     return res
 
 
+def run_sparse(case):
+    """Same histories, but the account is valued only where the history itself asks for it (and once at the end):
+    quote moves followed directly by trades, without an intervening valuation, stay unobserved until later."""
+    res = Result()
+    lab, stats = B.run_history(case, "c01-sparse", res)
+    classify(res, stats, case)
+    res.tag("sparse-valuation")
+    return res
+
+
 PARTS = [
     Part("ledger", strategy=lambda tier: B.histories(tier), run=run_ledger, quick=4000, thorough=400000),
     Part("twin", strategy=lambda tier: B.histories(tier), run=run_twin, quick=1500, thorough=100000),
+    Part("sparse", strategy=lambda tier: B.histories(tier), run=run_sparse, quick=4000, thorough=400000),
 ]
